@@ -21,7 +21,9 @@ type generatedMethod struct {
 	Dirty    bool
 
 	OriginPath []method.IndexID
-	Jen        jen.Code
+	// Callers are the generated methods that call this method without having created it.
+	Callers []method.IndexID
+	Jen     jen.Code
 
 	IndexID method.IndexID
 }
@@ -337,6 +339,10 @@ func (g *generator) ReturnError(ctx *builder.MethodContext, errPath builder.Erro
 			if !check.ReturnError {
 				check.ReturnError = true
 				check.Dirty = true
+				// the signature changed: methods calling it have to be generated again
+				for _, caller := range check.Callers {
+					g.lookup.ByID(caller).Dirty = true
+				}
 			}
 		}
 	}
@@ -482,6 +488,7 @@ func (g generator) callExisting(
 		return nil, nil, builder.NewError(err.Error())
 	}
 	if genMethod, err := g.lookup.Get(signature, ctx.AvailableContext); genMethod != nil {
+		genMethod.Callers = append(genMethod.Callers, ctx.IndexID)
 		return g.CallMethod(ctx, genMethod.Definition, sourceID, source, target, errPath)
 	} else if err != nil {
 		return nil, nil, builder.NewError(err.Error())
